@@ -12,11 +12,14 @@ use serde_json::json;
 const KEYS: &[&str] = &["utm", "utm_source", "fbclid", "id", "a", "b", "ref", "UTM", "utm ", "ut", "utmx", ""];
 const VALS: &[&str] = &["1", "", "x=y", "a%20b", "é", "?", "v#", "foo", "==", "&"];
 
+thread_local! { static RULE_NAMES: std::cell::RefCell<Vec<String>> = std::cell::RefCell::new(vec![]); static RULE_BASE: std::cell::RefCell<Option<String>> = std::cell::RefCell::new(None); }
 fn query(r: &mut Rng) -> String {
     let n = r.range(0, 5);
     let mut parts = vec![];
+    let names: Vec<String> = RULE_NAMES.with(|n| n.borrow().clone());
     for _ in 0..n {
-        let k = r.pick(KEYS);
+        // half of the keys are parameter names of rules of the list at hand
+        let k: &str = if !names.is_empty() && r.chance(1, 2) { &names[r.below(names.len())] } else { r.pick(KEYS) };
         match r.below(6) {
             0 => parts.push(k.to_string()),
             1 => parts.push(format!("{}=", k)),
@@ -30,9 +33,35 @@ fn query(r: &mut Rng) -> String {
     parts.join("&")
 }
 
+/// Spellings of scheme / authority that the URL scanner normalises (upper-case scheme or host, IDN
+/// host, credentials, port, surrounding blanks, tab inside the host): the rewrite must be made on the
+/// caller's string, byte for byte, not on the normalised one.
+fn spelled_prefix(r: &mut Rng, host: &str) -> String {
+    match r.below(12) {
+        0 => format!("HTTPS://{}", host),
+        1 => format!("Http://{}", host.to_uppercase()),
+        2 => format!("https://{}", host.to_uppercase()),
+        3 => format!("https://user:pw@{}", host),
+        4 => format!("https://{}:8443", host),
+        5 => format!("http://{}:80", host),
+        6 => format!("https://b\u{fc}cher.{}", host),
+        7 => format!(" https://{}", host),
+        8 => format!("https://{}.", host),
+        9 => format!("https://www.{}", host),
+        _ => format!("{}://{}", r.pick(&["https", "http"]), host),
+    }
+}
+
 fn gen_url(r: &mut Rng) -> String {
     let host = r.pick(gen::HOSTS);
-    let mut s = format!("{}://{}/{}", r.pick(&["https", "http"]), host, gen::segs(r, 0, 2).replace('^', "/").replace('*', "-").replace('?', "_"));
+    let pre = if r.chance(1, 3) { spelled_prefix(r, host) } else { format!("{}://{}", r.pick(&["https", "http"]), host) };
+    let mut s = format!("{}/{}", pre, gen::segs(r, 0, 2).replace('^', "/").replace('*', "-").replace('?', "_"));
+    // half of the URLs are built from the pattern of a rule of the list (so that patterned rules match)
+    if let Some(b) = RULE_BASE.with(|b| b.borrow().clone()) {
+        if r.chance(1, 2) && !b.contains('?') && !b.contains('#') {
+            s = b;
+        }
+    }
     match r.below(10) {
         0 => {}
         1 => {
@@ -69,19 +98,25 @@ fn gen_url(r: &mut Rng) -> String {
 fn gen_rules(r: &mut Rng) -> Vec<String> {
     let mut v = vec![];
     let n = r.range(1, 5);
+    let shared = gen::segs(r, 1, 2);
+    let sib = r.chance(1, 4);
     for _ in 0..n {
         let name = r.pick(gen::PARAMS);
-        let pat = match r.below(5) {
+        let pat = match if sib { 5 } else { r.below(7) } {
+            // several rules on one pattern: same bucket, same mask, different parameter
+            5 | 6 => shared.clone(),
             0 => format!("||{}^", r.pick(gen::HOSTS)),
             1 => format!("||{}/", r.pick(gen::HOSTS)),
             2 => gen::segs(r, 1, 2),
             _ => "*".to_string(),
         };
         let mut opts = vec![format!("removeparam={}", name)];
-        if r.chance(1, 6) {
+        if pat == shared {
+            // no further option: equal masks
+        } else if r.chance(1, 6) {
             opts.push((r.pick(&["xhr", "document", "subdocument", "script", "~script", "image"])).to_string());
         }
-        if r.chance(1, 8) {
+        if pat != shared && r.chance(1, 8) {
             opts.push(gen::domain_opt(r));
         }
         v.push(format!("{}${}", pat, opts.join(",")));
@@ -126,10 +161,34 @@ fn reference(names: &[String], url: &str) -> Option<String> {
     Some(if j.is_empty() { format!("{}{}", pre, post) } else { format!("{}?{}{}", pre, j, post) })
 }
 
-fn eval(rules: &[String], url: &str, src: &str, ty: &str) -> Option<(Vec<String>, bool, Option<String>, String)> {
+/// How the rules reach the matcher: 0 = Engine::from_rules (optimised), 1 = unoptimised engine,
+/// 2 = Blocker::new + explicit optimize() (twice), 3 = empty Blocker + add_filter one by one + optimize().
+fn run(rules: &[String], req: &Request, mode: usize) -> (bool, Option<String>) {
+    use adblock::blocker::{Blocker, BlockerOptions};
+    match mode {
+        0 => { let r = Engine::from_rules(rules.iter(), Default::default()).check_network_request(req); (r.important, r.rewritten_url) }
+        1 => { let r = Engine::from_rules_parametrised(rules.iter(), Default::default(), true, false).check_network_request(req); (r.important, r.rewritten_url) }
+        _ => {
+            let fs: Vec<NetworkFilter> = rules.iter().filter_map(|l| implrun::net::parse_net(l)).collect();
+            let rs = adblock::resources::ResourceStorage::default();
+            let mut b = if mode == 2 { Blocker::new(fs, &BlockerOptions { enable_optimizations: false }) } else {
+                let mut b = Blocker::new(vec![], &BlockerOptions { enable_optimizations: false });
+                for f in fs { use adblock::filters::network::NetworkFilterMaskHelper; if !f.is_badfilter() { let _ = b.add_filter(f); } }
+                b
+            };
+            b.optimize();
+            if mode == 2 { b.optimize(); }
+            let r = b.check(req, &rs);
+            (r.important, r.rewritten_url)
+        }
+    }
+}
+
+fn eval(rules: &[String], url: &str, src: &str, ty: &str, mode: usize) -> Option<(Vec<String>, bool, Option<String>, String)> {
     let req = Request::new(url, src, ty).ok()?;
-    let engine = Engine::from_rules(rules.iter(), Default::default());
-    let res = engine.check_network_request(&req);
+    let (important, rewritten) = run(rules, &req, mode);
+    struct Res { important: bool, rewritten_url: Option<String> }
+    let res = Res { important, rewritten_url: rewritten };
     let mut names = vec![];
     for line in rules {
         if let Ok(f) = NetworkFilter::parse(line, true, Default::default()) {
@@ -154,8 +213,9 @@ fn main() {
         let v: serde_json::Value = serde_json::from_str(&std::fs::read_to_string(p).unwrap()).unwrap();
         let rp = &v["replay"];
         let rules: Vec<String> = rp["rules"].as_array().unwrap().iter().map(|x| x.as_str().unwrap().to_string()).collect();
-        let (names, imp, got, orig) = eval(&rules, rp["url"].as_str().unwrap(), rp["source"].as_str().unwrap(), rp["type"].as_str().unwrap()).unwrap();
-        let want = if imp { None } else { reference(&names, &orig) };
+        let url = rp["url"].as_str().unwrap();
+        let (names, imp, got, _orig) = eval(&rules, url, rp["source"].as_str().unwrap(), rp["type"].as_str().unwrap(), rp["mode"].as_u64().unwrap_or(0) as usize).unwrap();
+        let want = if imp { None } else { reference(&names, url) };
         println!("names={:?} important={} impl={:?} spec={:?}", names, imp, got, want);
         if got != want {
             println!("VIOLATION property=C14 replay={}", p.display());
@@ -167,17 +227,28 @@ fn main() {
     let mut cs = Cases::new(&a.out, "C14_Model");
     let mut sm = Summary::default();
     sm.rule = "random rule lists (1-5 removeparam rules over 7 names, optional important/exception/blocking rules) x URLs whose query and fragment are drawn from a key/value grammar (empty values, key-only, '=' in values, '?' and '#' in fragments, non-ASCII); non-trivial = a parameter key equals a matching rule name (rewrite or empty-value keep)".into();
-    let n = 1500 * a.scale;
-    for _ in 0..n {
-        let rules = gen_rules(&mut r);
+    let n = 2400 * a.scale;
+    let mut rules: Vec<String> = vec![];
+    for it in 0..n {
+        // three URLs per rule list
+        if it % 3 == 0 { rules = gen_rules(&mut r); }
+        RULE_NAMES.with(|n| *n.borrow_mut() = rules.iter().filter_map(|l| l.split("removeparam=").nth(1)).map(|x| x.split(',').next().unwrap_or("").to_string()).collect());
+        { let k = r.below(rules.len()); let b = gen::url_for(&mut r, &rules[k]); RULE_BASE.with(|x| *x.borrow_mut() = Some(b)); }
         let url = gen_url(&mut r);
         // the source is never empty here: "no source + domain= rule" is the C01 finding F2, not a C14 matter
         let src = { let s = gen::source_url(&mut r); if s.is_empty() { "https://a.com/page".to_string() } else { s } };
         let ty = r.pick(&["document", "xhr", "subdocument", "script", "image", "main_frame"]);
-        let Some((names, imp, got, orig)) = eval(&rules, &url, &src, ty) else { cs.stat("request_error"); continue };
+        let mode = r.below(4);
+        // mode 3 cannot load $badfilter rules (add_filter rejects them) and F13-style duplicates: keep it to lists without them
+        let mode = if mode == 3 && rules.iter().any(|l| l.contains("badfilter")) { 2 } else { mode };
+        let Some((names, imp, got, _hook_orig)) = eval(&rules, &url, &src, ty, mode) else { cs.stat("request_error"); continue };
+        // the specification speaks about the URL the caller passed, not about any internal copy
+        let orig = url.clone();
         let want = if imp { None } else { reference(&names, &orig) };
         sm.oracle_evaluations += 1;
-        let desc = json!({"rules": rules, "url": url, "source": src, "type": ty, "matching_names": names, "important": imp, "impl": got});
+        cs.stat(["mode_engine_optimized", "mode_engine_plain", "mode_blocker_optimize_twice", "mode_add_filter_then_optimize"][mode]);
+        if url != url.to_ascii_lowercase() || !url.is_ascii() || url.starts_with(' ') || url.contains('@') { cs.stat("url_spelling_not_normal_form"); }
+        let desc = json!({"rules": rules, "url": url, "source": src, "type": ty, "mode": mode, "matching_names": names, "important": imp, "impl": got});
         if got != want {
             sm.failure(None, &format!("rewritten_url {:?} but the specification gives {:?}", got, want), desc.clone());
         }
